@@ -51,6 +51,15 @@ type Writer struct {
 
 const descLen = 12
 
+// nFrames is the number of frames a message of the given size is sent as.
+func nFrames(size int) int {
+	n := (size + MaxPayload - 1) / MaxPayload
+	if n == 0 {
+		n = 1
+	}
+	return n
+}
+
 func fill(buf []byte, w, msg int) {
 	n := len(buf)
 	nchunks := (n + MaxPayload - 1) / MaxPayload
@@ -96,6 +105,14 @@ func fillChunk(chunk []byte, w, msg, c, nchunks int) {
 	for i := descLen; i < size; i += 61 {
 		chunk[i] = seed + byte(i)
 	}
+}
+
+// frameID returns writer, message, chunk and chunk count of a frame payload (zeros for tiny/garbled frames).
+func frameID(b []byte) (int, int, int, int) {
+	if len(b) < descLen || b[0] != 'V' || b[10] != 'F' || b[11] != 'R' {
+		return 0, 0, 0, 0
+	}
+	return int(b[1]), int(b[2])<<8 | int(b[3]), int(b[4]), int(b[5])
 }
 
 // decode identifies a frame payload and tells whether its content is intact.
@@ -200,7 +217,8 @@ func (r *run) hook(point string, args ...interface{}) {
 	case "mux.whdr":
 		data := args[2].([]byte)
 		f, _ := decode(data)
-		r.ev("whdr", "dir", wdir, "conn", int(args[1].(uint32)), "f", f, "size", len(data))
+		fw, fm, fc, fn := frameID(data)
+		r.ev("whdr", "dir", wdir, "conn", int(args[1].(uint32)), "f", f, "size", len(data), "fw", fw, "fm", fm, "fc", fc, "fn", fn)
 		r.hmu.Lock()
 		r.nhdr[wdir]++
 		n := r.nhdr[wdir]
@@ -267,6 +285,19 @@ const watchdog = 3 * time.Second
 func (r *run) exec(sc Scenario, w *rec.Writer) error {
 	r.log = &rec.Buf{}
 	r.nhdr = map[string]int{}
+	r.muxA, r.muxB, r.trig = nil, nil, nil // late hook events of the previous run's multiplexers are not ours
+	if sc.Fault == "closeA" || sc.Fault == "closeB" {
+		// the close must fall inside the run: not later than the last frame
+		total := 0
+		for _, wr := range sc.Writers {
+			for _, m := range wr.Msgs {
+				total += nFrames(m)
+			}
+		}
+		if sc.At > total {
+			sc.At = total
+		}
+	}
 	// a cut is a fault only if that many bytes are written in its direction at all
 	if sc.Fault == "cutAB" || sc.Fault == "cutBA" {
 		from := sc.Fault[3:4]
@@ -288,7 +319,7 @@ func (r *run) exec(sc Scenario, w *rec.Writer) error {
 		for _, wr := range sc.Writers {
 			if wr.End == "A" && wr.Conn == sc.Stall {
 				for _, m := range wr.Msgs {
-					n += 1 + m/MaxPayload
+					n += nFrames(m)
 				}
 			}
 		}
@@ -302,7 +333,7 @@ func (r *run) exec(sc Scenario, w *rec.Writer) error {
 		per := map[string]int{}
 		for _, wr := range sc.Writers {
 			for _, m := range wr.Msgs {
-				per[fmt.Sprintf("%s%d", wr.End, wr.Conn)] += 1 + m/MaxPayload
+				per[fmt.Sprintf("%s%d", wr.End, wr.Conn)] += nFrames(m)
 			}
 		}
 		for _, n := range per {
@@ -595,6 +626,22 @@ func Generate(out string, n int, seed int64, big bool) error {
 	rng := rand.New(rand.NewSource(seed))
 	boundary := []int{0, 1, 11, 12, 13, MaxPayload - 1, MaxPayload, MaxPayload + 1, 2 * MaxPayload, 2*MaxPayload + 1, 3*MaxPayload + 5}
 	for i := 0; i < n; i++ {
+		if big && i%20 == 7 {
+			// several writers on the same end and connection, multi-frame messages among them
+			s := Scenario{QLen: 256, Fault: "none", Conns: []int{1, 2}}
+			end := []string{"A", "B"}[rng.Intn(2)]
+			for k := 0; k < 2+rng.Intn(2); k++ {
+				wr := Writer{End: end, Conn: 1}
+				for m := 0; m < 2; m++ {
+					wr.Msgs = append(wr.Msgs, []int{2*MaxPayload + 1, MaxPayload + 1, 100, 3*MaxPayload + 5}[rng.Intn(4)])
+				}
+				s.Writers = append(s.Writers, wr)
+			}
+			b, _ := json.Marshal(s)
+			w.Write(b)
+			w.WriteByte('\n')
+			continue
+		}
 		s := Scenario{QLen: []int{1, 2, 16, 256}[rng.Intn(4)], Fault: "none"}
 		nc := 1 + rng.Intn(3)
 		for c := 0; c < nc; c++ {
@@ -618,7 +665,7 @@ func Generate(out string, n int, seed int64, big bool) error {
 					}
 				}
 				wr.Msgs = append(wr.Msgs, size)
-				frames += 1 + size/MaxPayload
+				frames += nFrames(size)
 			}
 			s.Writers = append(s.Writers, wr)
 		}
